@@ -132,10 +132,17 @@ def hookp(tag, text, pos, v):
     return _dispatch('p', tag, pos, v)
 
 
+def envprobe():
+    """What user code can read of the interpreter-wide environment (inline Python is ordinary
+    Python: a callback may recurse, so the recursion limit is part of what decides its outcome)."""
+    return ['env', sys.getrecursionlimit(), round(sys.getswitchinterval(), 6)]
+
+
 def arm(module):
     module.hook = hook
     module.hookv = hookv
     module.hookp = hookp
+    module.envprobe = envprobe
 
 
 # ------------------------------------------------------------------------------- environment
